@@ -27,7 +27,11 @@ func (a *Audience) UnmarshalJSON(text []byte) error {
 	case []any:
 		*a = make([]string, len(aud))
 		for i, audience := range aud {
-			(*a)[i] = audience.(string)
+			s, ok := audience.(string)
+			if !ok {
+				return fmt.Errorf("oidc.Audience: unable to parse type %T with value %v", audience, audience)
+			}
+			(*a)[i] = s
 		}
 	case string:
 		*a = []string{aud}
